@@ -54,6 +54,32 @@ impl ControlFlow {
   }
 }
 
+#[cfg(feature = "verif_hooks")]
+impl ControlFlow {
+  /// Verification hook: every entry of the analysis result, in key order, as
+  /// (byte position, unreachable, end tag, [ret, throw, infinite_loop]).
+  /// End tag: 0 = none, 1 = Forced, 2 = Break, 3 = Continue.
+  pub fn verif_dump(&self) -> Vec<(usize, bool, u8, [bool; 3])> {
+    self
+      .meta
+      .iter()
+      .map(|(pos, m)| {
+        let (tag, flags) = match m.end {
+          None => (0u8, [false; 3]),
+          Some(End::Forced {
+            ret,
+            throw,
+            infinite_loop,
+          }) => (1u8, [ret, throw, infinite_loop]),
+          Some(End::Break) => (2u8, [false; 3]),
+          Some(End::Continue) => (3u8, [false; 3]),
+        };
+        (pos.as_byte_pos().0 as usize, m.unreachable, tag, flags)
+      })
+      .collect()
+  }
+}
+
 /// Kind of a basic block.
 #[derive(Debug, Clone, PartialEq, Eq)]
 pub enum BlockKind {
